@@ -98,6 +98,8 @@ type FuncCtx struct {
 	loopDepth int
 	permitBareRange bool
 	ceUnroll  int
+	ceDepth   int // nesting depth of loops being unrolled in counterexample mode
+	ceStates  int // loop states explored in counterexample mode (budget)
 	defs      map[string]string
 	views     map[string]string
 	topCall   *ast.CallExpr
